@@ -23,14 +23,21 @@ theorem C06_passes_ok : passesOK AC.Gen.genPasses = true := by decide
 /-- A program that reads a value no instruction outputs (e.g. an intermediate of a shift) is
     refused with an error: never compiled at all, hence never silently miscompiled. -/
 theorem C06_dangling_refused (cfg : Cfg String) (ir : List Inst) (occ : List (Nat × String))
-    (preOut : List String) (h : validateB ir = false) :
+    (preOut : List String) (h : danglingFrom [0] ir = false) :
     ∃ e, prepareX cfg ir occ preOut = .error e := by
   simp [prepareX, AC.Gen.genPasses, runPasses, applyPass, h]
+
+/-- A program in which an instruction outputs index 0 or an index that is already defined (the
+    shape a shift by zero produces) is refused with an error (fix of finding F9). -/
+theorem C06_duplicate_output_refused (cfg : Cfg String) (ir : List Inst) (occ : List (Nat × String))
+    (preOut : List String) (h : uniqueFrom [0] ir = false) :
+    ∃ e, prepareX cfg ir occ preOut = .error e := by
+  cases hd : danglingFrom [0] ir <;> simp [prepareX, AC.Gen.genPasses, runPasses, applyPass, h, hd]
 
 /-- A program without instructions is refused. -/
 theorem C06_empty_refused (cfg : Cfg String) (occ : List (Nat × String)) (preOut : List String) :
     ∃ e, prepareX cfg [] occ preOut = .error e := by
-  simp [prepareX, AC.Gen.genPasses, runPasses, applyPass, validateB, danglingFrom, allocateN]
+  simp [prepareX, AC.Gen.genPasses, runPasses, applyPass, danglingFrom, uniqueFrom, allocateN]
 
 /-- What acceptance means: the dangling check passed, the allocator produced the program and the
     temporaries, and chain / ops are the unrolled program and its evaluation. -/
@@ -40,10 +47,13 @@ theorem C06_accepted_shape (cfg : Cfg String) (ir : List Inst) (occ : List (Nat 
     (∃ prog temps, allocateN cfg ir occ = .ok (prog, temps) ∧ d.prog = fixOutputs ir preOut prog ∧ d.temps = temps) ∧
     (∃ ops, compileX ir = .ok ops ∧ d.ops = ops ∧ d.chain = evaluateX ops) := by
   simp only [prepareX, AC.Gen.genPasses, runPasses, applyPass] at h
-  cases hv : validateB ir with
-  | false => simp [hv] at h
+  cases hv1 : danglingFrom [0] ir with
+  | false => simp [hv1] at h
   | true =>
-    simp only [hv, if_true] at h
+  cases hv2 : uniqueFrom [0] ir with
+  | false => simp [hv1, hv2] at h
+  | true =>
+    simp only [hv1, hv2, Bool.not_true, Bool.false_eq_true, if_false, if_true] at h
     cases ha : allocateN cfg ir occ with
     | error e => simp [ha] at h
     | ok pt =>
@@ -54,50 +64,24 @@ theorem C06_accepted_shape (cfg : Cfg String) (ir : List Inst) (occ : List (Nat 
       | ok ops =>
         simp [hc] at h
         subst h
-        exact ⟨rfl, ⟨prog, temps, rfl, rfl, rfl⟩, ⟨ops, rfl, rfl, rfl⟩⟩
+        exact ⟨by simp [validateB, hv1, hv2], ⟨prog, temps, rfl, rfl, rfl⟩, ⟨ops, rfl, rfl, rfl⟩⟩
 
-/-- The dangling-input check together with strictly increasing outputs ≥ 1 is well-formedness
-    (`wfFrom` with element 0 entered explicitly). -/
-theorem C06_validated_wf : ∀ (ir : List Inst) (D : List Nat) (last : Nat),
-    danglingFrom (0 :: D) ir = true → (∀ (pre : List Inst) (a : Inst) (suf : List Inst), ir = pre ++ a :: suf →
-      (match pre.getLast? with | some b => b.out | none => last) < a.out) →
-    wfFrom D last ir = true := by
-  intro ir
-  induction ir with
-  | nil => intro _ _ _ _; rfl
-  | cons a r ih =>
-    intro D last hd hs
-    simp only [danglingFrom, Bool.and_eq_true, List.all_eq_true, List.contains_iff_mem] at hd
-    obtain ⟨hin, hrec⟩ := hd
-    simp only [wfFrom, Bool.and_eq_true, decide_eq_true_eq, List.all_eq_true, Bool.or_eq_true,
-      beq_iff_eq, List.contains_iff_mem]
-    refine ⟨⟨by simpa using hs [] a r rfl, ?_⟩, ?_⟩
-    · intro x hx
-      rcases List.mem_cons.mp (hin x hx) with h | h
-      · exact Or.inl h
-      · exact Or.inr h
-    · apply ih (a.out :: D) a.out
-      · -- reorder the defined set: membership only
-        have key : ∀ (l : List Inst) (S T : List Nat), (∀ x, x ∈ S → x ∈ T) →
-            danglingFrom S l = true → danglingFrom T l = true := by
-          intro l
-          induction l with
-          | nil => intro _ _ _ _; rfl
-          | cons b l ihl =>
-            intro S T hST h
-            simp only [danglingFrom, Bool.and_eq_true, List.all_eq_true, List.contains_iff_mem] at h ⊢
-            exact ⟨fun x hx => hST x (h.1 x hx),
-              ihl (b.out :: S) (b.out :: T) (by intro x hx; rcases List.mem_cons.mp hx with rfl | hx <;> simp [*]) h.2⟩
-        exact key r _ _ (by intro x hx; simp at hx ⊢; rcases hx with h | h | h <;> simp [h]) hrec
-      · intro pre b suf e
-        have := hs (a :: pre) b suf (by simp [e])
-        cases pre with
-        | nil => simpa using this
-        | cons c pre' =>
-          rw [List.getLast?_cons_cons] at this
-          cases hg : (c :: pre').getLast? with
-          | none => simp at hg
-          | some b' => rw [hg] at this; exact this
+/-- **Accepted programs are well-formed**: what the extracted pass list guarantees — no dangling
+    input, no repeated output (`pass.Validate`), every output index equal to the position the
+    unrolled program reaches (`pass.Eval`) — is exactly the well-formedness C05 needs: outputs ≥ 1
+    and strictly increasing, inputs 0 or earlier outputs; and there is at least one instruction. -/
+theorem C06_accepted_wf (cfg : Cfg String) (ir : List Inst) (occ : List (Nat × String))
+    (preOut : List String) (d : Data) (h : prepareX cfg ir occ preOut = .ok d) :
+    wfB ir = true ∧ ir ≠ [] := by
+  obtain ⟨hv, ⟨prog, temps, ha, _, _⟩, ⟨ops, hc, _, _⟩⟩ := C06_accepted_shape cfg ir occ preOut d h
+  simp only [validateB, Bool.and_eq_true] at hv
+  constructor
+  · unfold compileX at hc
+    cases hcf : compileFrom #[] ir with
+    | error e => rw [hcf] at hc; cases hc
+    | ok q =>
+      exact compile_wf ir #[] [0] [] 0 q (by intro x; simp) (by simp) hv.1 hv.2 hcf
+  · intro e; subst e; simp [allocateN] at ha
 
 /-- **The listing reads back**: the text the `listing` template produces for declared temporaries
     `tmps` and instruction lines `ls`, read as documented, is exactly `(tmps, ls)` — for names
@@ -179,11 +163,43 @@ theorem C06_prepare_listing (cfg : Cfg String) (ir : List Inst) (occ : List (Nat
   unfold listingOf
   rw [hp, ht, fixOutputs_wf ir preOut prog hwf hlen hlenp]
 
-/-- The dangling-input check plus strictly increasing outputs ≥ 1 is the well-formedness of C05. -/
-theorem C06_validated_wfB (ir : List Inst) (hv : validateB ir = true)
-    (hs : ∀ (pre : List Inst) (a : Inst) (suf : List Inst), ir = pre ++ a :: suf →
-      (match pre.getLast? with | some b => b.out | none => 0) < a.out) : wfB ir = true :=
-  C06_validated_wf ir [] 0 hv hs
+/-- **End to end for the `listing` template**: whenever the model of `gen.PrepareData` accepts a
+    program (with distinct, listing-safe names), the listing text it produces reads back, as
+    documented, to the declared temporaries and instruction lines; those lines, run literally on
+    the register machine from `{input ↦ v}`, succeed in both alias modes and leave `chainEnd ir * v`
+    in the output register, mentioning only the input, the output and declared temporaries. -/
+theorem C06_accepted_listing_correct (cfg : Cfg String) (ir : List Inst) (occ : List (Nat × String))
+    (preOut : List String) (d : Data) (h : prepareX cfg ir occ preOut = .ok d)
+    (hlen : preOut.length = ir.length) (hd : NamesDistinct cfg) (hok : CfgOK cfg)
+    (alias : Bool) (v : Int) :
+    ∃ tmps lines, readListing (listingOf d).toList = some (tmps, lines) ∧
+      tmps = d.temps.map String.toList ∧
+      (∃ st, execX (cfgL cfg) alias (lines.map ofLine) (initX (cfgL cfg) v) = .ok st ∧
+        getX st (cellX (cfgL cfg) alias (cfgL cfg).output) = some (chainEnd ir * v)) ∧
+      (∀ n ∈ usedNames (lines.map ofLine), n = (cfgL cfg).input ∨ n = (cfgL cfg).output ∨ n ∈ tmps) := by
+  obtain ⟨hwf, hne⟩ := C06_accepted_wf cfg ir occ preOut d h
+  obtain ⟨prog, temps, hx, hl⟩ := C06_prepare_listing cfg ir occ preOut d h hwf hlen
+  obtain ⟨prog', temps', hx', lines, hr, hrun, hnm⟩ := C06_listing_correct cfg ir hwf hne hd hok alias v
+  rw [hx] at hx'
+  injection hx' with hx'
+  injection hx' with hp ht
+  subst hp; subst ht
+  obtain ⟨_, ⟨prog2, temps2, ha, _, ht2⟩, _⟩ := C06_accepted_shape cfg ir occ preOut d h
+  have htemps : d.temps = temps := by
+    rw [ht2]
+    unfold allocateN at ha
+    have : ir.isEmpty = false := by cases ir <;> simp_all
+    simp only [this] at ha
+    by_cases hc : nameConflict occ = true
+    · simp [hc] at ha
+    · have ha' : allocateX cfg ir = .ok (prog2, temps2) := by simpa [hc] using ha
+      rw [hx] at ha'
+      injection ha' with ha'
+      injection ha' with _ h2
+      exact h2.symm
+  refine ⟨temps.map String.toList, lines, ?_, by rw [htemps], hrun, hnm⟩
+  rw [hl, String.toList_ofList]
+  exact hr
 
 /-- **The `chain` output lists exactly the evaluated chain**: read line by line in the documented
     format `%3d: %#x` it gives positions 1, 2, … paired with the chain values. -/
@@ -206,6 +222,14 @@ theorem C06_script_reloads {Tree : Type} (parse : List Char → Option Tree) (pr
     (s : List Char) (t : Tree) (c : List Nat) (hp : parse s = some t) (he : eval t = some c) :
     (parse (print t)).bind eval = some c := by
   rw [hC07 s t hp]; exact he
+
+/-- the pass list of the tree before the F3 fix does not satisfy `passesOK` -/
+example : passesOK ["cfg.Allocator", "pass.Func(pass.Eval)"] = false := by decide
+
+/-- the shift-by-zero shape `1:D(0); 1:S(1,0)` is refused by the unique-output check, `2:A(0,3)`
+    (reading an index nobody outputs) by the dangling check -/
+example : uniqueFrom [0] [⟨1, .dbl 0⟩, ⟨1, .shl 1 0⟩] = false ∧ danglingFrom [0] [⟨3, .shl 0 3⟩, ⟨4, .add 2 3⟩] = false := by
+  decide
 
 /-- non-vacuity: a listing with one temporary -/
 example : readListing (renderListingX ["t0".toList]
